@@ -151,8 +151,24 @@ def tlc_trace(spec_dir, module, cfg, trace_path, timeout=600, heap="4g"):
 
 # --------------------------------------------------------------------------- graph cover
 
+def pick_targets(edges, klass, extra=0, seed=0):
+    """One representative edge per class `klass(edge)` (chosen with `seed`), plus `extra` random others.
+    Used to spend a small replay budget on behaviourally distinct transitions first."""
+    rng = random.Random(seed)
+    by = collections.defaultdict(list)
+    for i, e in enumerate(edges):
+        by[klass(e)].append(i)
+    targets = set()
+    for k in sorted(by, key=lambda x: canon(x)):
+        targets.add(rng.choice(by[k]))
+    rest = [i for i in range(len(edges)) if i not in targets]
+    rng.shuffle(rest)
+    targets.update(rest[:extra])
+    return targets, len(by)
+
+
 def cover_sequences(edges, key=lambda e: canon(e["pre"]), post_key=lambda e: canon(e["post"]),
-                    init_key=None, max_len=120, budget=None, seed=0):
+                    init_key=None, max_len=120, budget=None, seed=0, targets=None):
     """Operation sequences (lists of edge indexes) that start in the initial state and
     together traverse every edge at least once.  Greedy: from the current state walk the
     shortest path to the nearest state that still has an untraversed out-edge.
@@ -164,8 +180,12 @@ def cover_sequences(edges, key=lambda e: canon(e["pre"]), post_key=lambda e: can
     if init_key is None:
         # the state with no incoming edge from a different state, else the first pre
         init_key = key(edges[0])
-    uncovered = {k: list(v) for k, v in out.items()}
-    remaining = len(edges)
+    if targets is None:
+        uncovered = {k: list(v) for k, v in out.items()}
+        remaining = len(edges)
+    else:
+        uncovered = {k: [i for i in v if i in targets] for k, v in out.items()}
+        remaining = sum(len(v) for v in uncovered.values())
     total = remaining
     seqs = []
     cur_seq = []
